@@ -48,12 +48,12 @@ Definition ex_pipeline : op :=
           (Extend (Extend (Table "d1" ["a"; "b"; "g"]) "a + 1" ["x"] None false) "a.cumsum()" ["y"; "w"]
                   (Some (mkw ["data_algebra_extend_temp_col_0"] ["g"; "a"] true)) false)
           (Project (SelectRows (Table "d2" ["g"; "b"; "z"]) "z > 1" 2) "z.sum()" ["g"] ["b"] [] 2)
-          ["g"] ["g"] "LEFT" 4)
+          ["g"] ["g"] "LEFT" true 4)
        (SelectRows (NaturalJoin
           (Extend (Extend (Table "d1" ["a"; "b"; "g"]) "a + 1" ["x"] None false) "a.cumsum()" ["y"; "w"]
                   (Some (mkw ["data_algebra_extend_temp_col_0"] ["g"; "a"] true)) false)
           (Project (SelectRows (Table "d2" ["g"; "b"; "z"]) "z > 1" 2) "z.sum()" ["g"] ["b"] [] 2)
-          ["g"] ["g"] "LEFT" 4) "a > 0" 0)
+          ["g"] ["g"] "LEFT" true 4) "a > 0" 0)
        (Some "src"))
     ["a"] [] (Some 2).
 Definition ex_random : op := Extend (Table "d1" ["a"]) "_uniform()" ["u"] None true.
